@@ -511,10 +511,13 @@ def run_program(prog, env_factory=None, resources=None):
     patch_until_registration(m)
     import signal
 
+    import hangbudget
+
     def _hang(signum, frame):
+        hangbudget.note()
         raise TimeoutError("no progress")
     old_handler = signal.signal(signal.SIGALRM, _hang)
-    signal.setitimer(signal.ITIMER_REAL, 60)
+    signal.setitimer(signal.ITIMER_REAL, hangbudget.limit(60), 1.0)
     try:
         try:
             m.run_plan()
